@@ -151,7 +151,11 @@ pub fn gen_keys(rng: &mut Rng, n: usize, class: KeyClass, block: usize) -> Vec<V
                 set.insert(k);
             }
             for _ in 0..rng.urange(1, 2) {
-                let len = block + rng.urange(1, 600);
+                let len = match rng.below(12) {
+                    0 => *rng.pick(&[16383usize, 16384, 16385]),
+                    1 => *rng.pick(&[(1usize << 21) - 1, 1 << 21, (1 << 21) + 1]),
+                    _ => block + rng.urange(1, 600),
+                };
                 set.insert(rng.bytes(len));
             }
         }
@@ -187,7 +191,14 @@ pub fn gen_value_len(rng: &mut Rng, profile: u8, block: usize, klen: usize) -> u
             (base + rng.urange(0, 4)).saturating_sub(2)
         }
         4 => rng.urange(2000, 5000),
-        _ => *rng.pick(&[127usize, 128, 129, 16383, 16384, 16385]),
+        _ => {
+            // framing boundaries 2^7, 2^14 and, rarely (2 MiB per entry), 2^21
+            if rng.chance(1, 40) {
+                *rng.pick(&[(1usize << 21) - 1, 1 << 21, (1 << 21) + 1])
+            } else {
+                *rng.pick(&[127usize, 128, 129, 16383, 16384, 16385])
+            }
+        }
     }
 }
 
@@ -220,7 +231,7 @@ pub fn gen_entries_with(rng: &mut Rng, n: usize, class: KeyClass, block: usize, 
     let mut out = Vec::with_capacity(keys.len());
     for (i, k) in keys.into_iter().enumerate() {
         let mut vl = gen_value_len(rng, profile, block.min(8192), k.len());
-        if total + vl > byte_cap {
+        if total + vl > byte_cap && !(vl >= (1 << 21) - 1 && vl <= (1 << 21) + 1 && total < (1 << 21)) {
             vl = rng.urange(0, 8);
         }
         total += vl + k.len();
